@@ -56,10 +56,11 @@ const PATTERN: u8 = 0xB7;
 fn slot_bytes<T>(s: &MaybeUninit<T>) -> Vec<u8> {
     unsafe { std::slice::from_raw_parts(s as *const _ as *const u8, std::mem::size_of::<T>()).to_vec() }
 }
-fn fresh_slot<T>() -> MaybeUninit<T> {
-    let mut s = MaybeUninit::<T>::uninit();
-    unsafe { std::ptr::write_bytes(&mut s as *mut _ as *mut u8, PATTERN, std::mem::size_of::<T>()) };
-    s
+/// Fills a slot with the pattern where it stands (a slot that is moved after having been filled
+/// keeps the bytes of its fields only: padding does not survive a move, and the "left untouched"
+/// oracle reads every byte).
+fn fill_slot<T>(s: &mut MaybeUninit<T>) {
+    unsafe { std::ptr::write_bytes(s as *mut _ as *mut u8, PATTERN, std::mem::size_of::<T>()) };
 }
 
 fn reg_check(st: &State, when: &str) -> VResult {
@@ -82,7 +83,8 @@ fn apply(st: &mut State, step: &Step, counts: &mut Vec<&'static str>) -> Result<
             let id = st.next_id;
             st.next_id += 1;
             let res: Result<Pay, UserErr> = if fail { Err(UserErr(code)) } else { Ok(Pay::new(id, &st.reg)) };
-            let mut slot = fresh_slot::<Pay>();
+            let mut slot = MaybeUninit::<Pay>::uninit();
+            fill_slot(&mut slot);
             let before = slot_bytes(&slot);
             let rc = track(|| if step.arg(2) & 1 == 1 { res.into_int_out_result(&mut slot) } else { into_int_out_result(res, &mut slot) });
             if fail {
@@ -119,7 +121,8 @@ fn apply(st: &mut State, step: &Step, counts: &mut Vec<&'static str>) -> Result<
             // a zero-sized success payload with a destructor (a permit / guard type): moved into
             // the slot once, destroyed once — when the decoded value is released
             let res: Result<ZTok, UserErr> = if fail { Err(UserErr(code)) } else { Z_LIVE.fetch_add(1, std::sync::atomic::Ordering::SeqCst); Ok(ZTok) };
-            let mut slot = fresh_slot::<ZTok>();
+            let mut slot = MaybeUninit::<ZTok>::uninit();
+            fill_slot(&mut slot);
             let rc = track(|| if step.arg(2) & 1 == 1 { res.into_int_out_result(&mut slot) } else { into_int_out_result(res, &mut slot) });
             vcheck!((rc == 0) == !fail, "intres.err_encoded_as_zero", "zst", "Result<zero-sized, UserErr> fail={} encoded as {}", fail, rc);
             let live = Z_LIVE.load(std::sync::atomic::Ordering::SeqCst);
@@ -142,7 +145,8 @@ fn apply(st: &mut State, step: &Step, counts: &mut Vec<&'static str>) -> Result<
             } else {
                 Err(std::io::Error::from_raw_os_error(code))
             };
-            let mut slot = fresh_slot::<u64>();
+            let mut slot = MaybeUninit::<u64>::uninit();
+            fill_slot(&mut slot);
             let before = slot_bytes(&slot);
             let rc = track(|| into_int_out_result(res, &mut slot));
             vcheck!((rc == 0) == !fail, "intres.err_encoded_as_zero", "io::Error", "io result (fail={}, code={}, non_os={}) encoded as {}", fail, code, non_os, rc);
@@ -190,7 +194,8 @@ fn apply(st: &mut State, step: &Step, counts: &mut Vec<&'static str>) -> Result<
             vcheck!(du.is_ok() == (code == 0), "intres.decoded_ok_from_error", "from_int_result_empty::<()>", "code {} decoded as {:?}", code, du);
             let df: Result<(), std::fmt::Error> = from_int_result_empty(code);
             vcheck!(df.is_ok() == (code == 0), "intres.decoded_ok_from_error", "from_int_result_empty::<fmt::Error>", "code {} decoded as {:?}", code, df);
-            let mut slot = fresh_slot::<u64>();
+            let mut slot = MaybeUninit::<u64>::uninit();
+            fill_slot(&mut slot);
             unsafe { slot.as_mut_ptr().write(7) };
             let dv: Result<u64, ()> = unsafe { from_int_result(code, slot) };
             vcheck!(dv == if code == 0 { Ok(7) } else { Err(()) }, "intres.decoded_ok_from_error", "from_int_result::<u64, ()>", "code {} decoded as {:?}", code, dv);
